@@ -95,6 +95,12 @@ def build(case):
             body = [other, t, 'IP0000T1', 'TRAILER '][rowno % 4] + subs[(ti + 1) % len(subs)] + body[11:]
         row, ts, code = data_row(t, subs[ti], body, rowno, expanded)
         recs.append(row)
+        if case.get('table_trailers') and (rowno + 1 == len(order) or order[rowno + 1] != ti):
+            # the per-table housekeeping records real extracts carry between the tables' rows: they are rows of no
+            # table, whatever follows them is still read
+            recs.append(('TRAILER RECORD %s  %08d' % (t, rowno + 1)).ljust(80))
+            if rowno % 2:
+                recs.append(('HEADER RECORD %s' % tables[(ti + 1) % len(tables)]).ljust(80))
         if t == want and t in cfg:
             d = {'table_id': t, 'effective_timestamp': ts, 'active_inactive_code': code}
             for name, pos in cfg[t].items():
@@ -118,7 +124,8 @@ def check_case(case, acc):
     data, expected = build(case)
     cfg = param_config()
     acc.case((tuple(case['tables']), tuple(case['subs']), tuple(case['order']), case['want'], case['expanded'],
-              case['enc'], case['blocked'], case.get('trailer', True), case.get('via')),
+              case['enc'], case['blocked'], case.get('trailer', True), case.get('via'), case.get('table_trailers'),
+              case.get('idlike')),
              nontrivial=len(case['order']) > 0, outcome='rows:%d' % len(expected))
     refuse = (not case.get('trailer', True)) or (case['want'] not in cfg)
     try:
@@ -311,6 +318,13 @@ def enumerate_cases(tier, seed):
             for enc, blocked in (('latin_1', False), ('cp500', True)):
                 cases.append(dict(base, tables=std, subs=SUB_POOL[:4], order=[0, 1, 2, 3, 0, 1, 2, 3, 3, 2, 1, 0],
                                   want=want, expanded=expanded, enc=enc, blocked=blocked, idlike=True))
+    # (d4) per-table trailer / header records between the runs of rows (a table's rows continue after them)
+    for want in std:
+        for expanded in (False, True):
+            for enc, blocked in (('latin_1', False), ('cp500', True)):
+                for order in ([0, 0, 1, 1, 2, 3, 0, 1, 2, 3, 3, 2, 1, 0], [3, 2, 1, 0, 0, 1, 2, 3], [0, 1, 0, 1, 2, 2]):
+                    cases.append(dict(base, tables=std, subs=SUB_POOL[:4], order=order, want=want, expanded=expanded,
+                                      enc=enc, blocked=blocked, table_trailers=True))
     # (e) refusals
     for expanded in (False, True):
         for blocked in (False, True):
